@@ -225,20 +225,30 @@ Definition ex_drain_script : list op :=
    OCommit 1 [(4096, 8191)] TagMigrating 5 true;          (* wrong epoch: refused *)
    OCommitNth 1 7 true].                                  (* commits the remaining migration *)
 
+(* cluster 1 of that store (computed once) *)
+Definition ex_drain_cl : option cluster := Eval vm_compute in alookup 1 (st_clusters ex_drain_store).
+
+Example ex_drain_lookup : alookup 1 (st_clusters ex_drain_store) = ex_drain_cl.
+Proof. vm_compute. reflexivity. Qed.
+
 Example ex_drain_hyps :
   store_part_inv ex_drain_store /\ Forall (drain_op 1) ex_drain_script /\
   exists cl, alookup 1 (st_clusters ex_drain_store) = Some cl /\ cluster_is_migrating cl = true /\ pending cl = 2%nat /\
              successes ex_drain_store ex_drain_script = pending cl.
 Proof.
   split; [exact (proj1 ex_out_result)|]. split; [repeat constructor|].
-  eexists. split; [vm_compute; reflexivity|]. repeat split; vm_compute; reflexivity.
+  rewrite ex_drain_lookup. unfold ex_drain_cl. eexists. split; [reflexivity|].
+  split; [vm_compute; reflexivity|]. split; vm_compute; reflexivity.
 Qed.
 
 Example ex_drain_step : exists cl cl',
   alookup 1 (st_clusters ex_drain_store) = Some cl /\
   alookup 1 (st_clusters (fst (step ex_drain_store (OCommitNth 1 0 false)))) = Some cl' /\
   snd (step ex_drain_store (OCommitNth 1 0 false)) = ROk /\ pending cl = 2%nat /\ pending cl' = 1%nat.
-Proof. eexists. eexists. repeat split; vm_compute; reflexivity. Qed.
+Proof.
+  rewrite ex_drain_lookup. unfold ex_drain_cl. eexists. eexists. split; [reflexivity|].
+  split; [vm_compute; reflexivity|]. split; [vm_compute; reflexivity|]. split; vm_compute; reflexivity.
+Qed.
 
 Example ex_drain_done : exists cl',
   alookup 1 (st_clusters (run ex_drain_store ex_drain_script)) = Some cl' /\ cluster_is_migrating cl' = false.
